@@ -3,6 +3,7 @@ package c08
 
 import (
 	"encoding/json"
+	"flag"
 	"fmt"
 	"go/ast"
 	"go/build"
@@ -29,7 +30,11 @@ import (
 	"github.com/gardenbed/emerge/internal/vh/rec"
 )
 
-func TestMain(m *testing.M) { rec.Main(m, "C08") }
+func TestMain(m *testing.M) {
+	rec.Init("C08")
+	_ = flag.Set("rapid.shrinktime", "20s") // every shrink attempt compiles a batch
+	rec.Run(m)
+}
 
 const rule = "accepted specifications biased to what stresses rendering: literals and patterns containing quotes, backslash, backquote, percent, braces, control characters (tab, newline, CR, 0x01-0x08, DEL), non-ASCII and surrogate code points, " +
 	"terminals that lose every accepting state to a literal, terminals named WS/EOL/ERR, many states; oracle per specification: (a) every emitted file parses, imports only the standard library and the package type-checks (go/types), " +
